@@ -431,13 +431,59 @@ func c19r3(p *Program, r *Report) {
 		r.Check(guardJ, cc, name+" writes only while j < 32", "j < 32 in the case condition", "the store into u[j/2] is not guarded by j < 32: a 33rd digit indexes out of range")
 		return true
 	})
-	for nme := range ranges {
-		if !found[nme] {
-			r.Bad(rng, "ParseUUID handles "+nme, "no case for the "+nme+" hexadecimal range")
+	if nwrite == 0 {
+		r.Unresolved("ParseUUID does not classify the rune in a switch over the hexadecimal ranges (the form this rule compares with the ranges); only the width and length rules below are decided")
+	} else {
+		for nme := range ranges {
+			if !found[nme] {
+				r.Bad(rng, "ParseUUID handles "+nme, "no case for the "+nme+" hexadecimal range")
+			}
 		}
 	}
-	if nwrite == 0 {
-		r.Unresolved("ParseUUID: no case writes the UUID")
+	// every conversion of the input rune (or a value derived from it) to a narrower type keeps its value:
+	// a rune silently truncated to a byte lets non-ASCII characters pass as digits
+	{
+		gfacts := g.GuardFacts()
+		seq := 0
+		inspectNoLit(rng.Body, func(x ast.Node) bool {
+			c, ok := x.(*ast.CallExpr)
+			if !ok || len(c.Args) != 1 {
+				return true
+			}
+			tv, ok := info.Types[c.Fun]
+			if !ok || !tv.IsType() {
+				return true
+			}
+			db, du, ok := p.intWidth(tv.Type)
+			if !ok || db >= 32 {
+				return true
+			}
+			mentions := false
+			ast.Inspect(c.Args[0], func(y ast.Node) bool {
+				if id, ok := y.(*ast.Ident); ok && info.Uses[id] == runeObj {
+					mentions = true
+				}
+				return true
+			})
+			if !mentions {
+				return true
+			}
+			seq++
+			f, _ := gfacts.Before(p.stmtOf(c, fi))
+			// the conversion may sit in a case clause whose condition bounds the rune
+			if cc, ok := p.enclosing(c, fi.Decl, func(n ast.Node) bool { _, is := n.(*ast.CaseClause); return is }).(*ast.CaseClause); ok && len(cc.List) == 1 {
+				f = f.clone()
+				f.assume(cc.List[0], true)
+			}
+			iv, why := p.operandInterval(g, fi, f, c.Args[0])
+			acc := typeRange(db, du)
+			if !du {
+				acc = ival{typeRange(db, false).lo, typeRange(db, true).hi}
+			}
+			r.Check(iv.lo != nil && iv.within(acc), c, fmt.Sprintf("ParseUUID: %s keeps the rune's value #%d", exprStr(c), seq), "operand in "+iv.String()+" ("+why+")",
+				fmt.Sprintf("the input rune is narrowed by %s while it can be anywhere in %s (%s): a non-ASCII character whose low byte is a hexadecimal digit is accepted as that digit", exprStr(c), iv.String(), why))
+			return true
+		})
 	}
 	// final length check
 	facts := g.GuardFacts()
@@ -463,7 +509,9 @@ func c19r3(p *Program, r *Report) {
 		}
 		return true
 	})
-	r.Check(rej, rng, "ParseUUID rejects every other character", "default returns an error", "characters that are neither hexadecimal digits nor separators are not rejected")
+	if nwrite > 0 {
+		r.Check(rej, rng, "ParseUUID rejects every other character", "default returns an error", "characters that are neither hexadecimal digits nor separators are not rejected")
+	}
 }
 
 func c19r4(p *Program, r *Report) {
@@ -503,6 +551,60 @@ func c19r4(p *Program, r *Report) {
 	}
 	if n == 0 {
 		r.Unresolved("clockSeq is never used outside init")
+	}
+	// every generated UUID consumes a fresh sequence value: the clock argument of TimeUUIDWith in UUIDFromTime is,
+	// on every path, the result of an atomic increment of clockSeq (a value merely loaded is shared with every
+	// other UUID generated for the same timestamp)
+	if fi := r.NeedFunc("UUIDFromTime"); fi != nil {
+		info := fi.Pkg.TypesInfo
+		isInc := func(e ast.Expr) bool {
+			c, ok := ast.Unparen(e).(*ast.CallExpr)
+			if !ok || calleeName(info, c) != "atomic.AddUint32" || len(c.Args) != 2 {
+				return false
+			}
+			u, ok := c.Args[0].(*ast.UnaryExpr)
+			if !ok || u.Op != token.AND {
+				return false
+			}
+			id, ok := u.X.(*ast.Ident)
+			k, isK := constInt(info, c.Args[1])
+			return ok && info.Uses[id] == obj && isK && k > 0
+		}
+		found := false
+		for _, c := range callsIn(fi.Decl.Body) {
+			if !isCallTo(info, c, "TimeUUIDWith") || len(c.Args) != 3 {
+				continue
+			}
+			found = true
+			arg := ast.Unparen(c.Args[1])
+			okAll := isInc(arg)
+			why := exprStr(arg)
+			if id, isId := arg.(*ast.Ident); isId {
+				okAll = true
+				ndef := 0
+				ast.Inspect(fi.Decl.Body, func(x ast.Node) bool {
+					if as, ok := x.(*ast.AssignStmt); ok && len(as.Lhs) == len(as.Rhs) {
+						for i, l := range as.Lhs {
+							if lid, ok := l.(*ast.Ident); ok && (info.Defs[lid] == info.Uses[id] || info.Uses[lid] == info.Uses[id]) {
+								ndef++
+								if !isInc(as.Rhs[i]) {
+									okAll = false
+									why = exprStr(as.Rhs[i])
+								}
+							}
+						}
+					}
+					return true
+				})
+				if ndef == 0 {
+					okAll = false
+				}
+			}
+			r.Check(okAll, c, "UUIDFromTime: every UUID takes a freshly incremented clock sequence", "atomic.AddUint32(&clockSeq, 1) on every path", "on some path the clock sequence used is `"+why+"`, not the result of an atomic increment: two UUIDs generated for the same 100ns timestamp (concurrently, or after the clock stepped back) are identical")
+		}
+		if !found {
+			r.Unresolved("UUIDFromTime does not call TimeUUIDWith")
+		}
 	}
 }
 
